@@ -138,7 +138,7 @@ def parseSpec (s : String) : Option Spec :=
       let lease ← parseRel lease
       let rest := (k.drop 1).toString
       -- an alias is chased with the question's own type: the target stays on the name's side (n = A, m = AAAA)
-      some { name := name, kind := kc, tgt := if rest.startsWith "p" then rest else (name.take 1).toString ++ rest, ans := ans, ns := ns, lease := lease, isScoped := sc == "s", extra := extra }
+      some { name := name, kind := kc, tgt := if rest.startsWith "p" || rest.startsWith "u" then rest else (name.take 1).toString ++ rest, ans := ans, ns := ns, lease := lease, isScoped := sc == "s", extra := extra }
     | _ => none
   | _ => none
 
@@ -156,6 +156,7 @@ structure Reply where
   lastCname : Option String := none       -- target of the last CNAME of the answer section
   hasType : Bool := false                 -- the answer section holds a record of the question type
   synth : Option (String × Nat) := none   -- carries a validated RFC 8198 synthesis (owner index, TTL shown)
+  cutProof : Option (String × Nat) := none  -- carries the provenance of a subtree-cut hit (cut, TTL shown)
   ansRRs : List (Nat × NKind) := []       -- the answer section as CalculateCacheTTL reads it (TTL, kind)
   extra : List NsRec := []                -- the additional section (never merged by the chase: the outer message's own)
   aliases : List String := []             -- answer pieces that are CNAMEs
@@ -170,6 +171,8 @@ structure HState where
   nextId : Nat := 0
   captured : List (String × Option Nat) := []
   cuts : List (String × Int) := []
+  -- the proof of each recorded cut: (generation, SOA item, SOA RRSIG item, NSEC item, NSEC RRSIG item)
+  cutItems : List (String × (Nat × Item × Item × Item × Item)) := []
   -- the RFC 8198 proof index of zone pz.test.: the one SOA entry and one NSEC entry per owner;
   -- (expires, generation, record item, signature item)
   pfPct : Nat := 0                       -- CacheConfig.Prefetch
@@ -228,6 +231,7 @@ def mergeReply (r s : Reply) : Reply :=
     nx := r.nx || s.nx, fresh := r.fresh ++ s.fresh, expired := r.expired || s.expired,
     lastCname := if s.lastCname.isSome then s.lastCname else r.lastCname, hasType := r.hasType || s.hasType,
     synth := if s.synth.isSome then s.synth else r.synth,
+    cutProof := if s.cutProof.isSome then s.cutProof else r.cutProof,
     ansRRs := r.ansRRs ++ s.ansRRs, extra := r.extra,
     aliases := r.aliases ++ s.aliases, freshTTLs := r.freshTTLs ++ s.freshTTLs }
 
@@ -260,6 +264,40 @@ def synthReply (st : HState) (i : String) (now : Int) : Option (Reply × Int) :=
         { rid := (2000000 + ngen, 1), owner := "s" ++ i, ttl := ttl, kind := .sig g2.b }]
       some ({ ns := ns, synth := some (i, ttl) }, exp)
   | _, _ => none
+
+def cutProofRecs (now : Int) (sTtl pTtl gTtl g2Ttl : Nat) (s g p g2 : Item) : List ProofRR :=
+  [{ rr := { ttl := sTtl, kind := .soa s.a.toNat } }, { rr := { ttl := gTtl, kind := .rrsig (now + g.b * S) }, orig := g.a.toNat },
+   { rr := { ttl := pTtl } }, { rr := { ttl := g2Ttl, kind := .rrsig (now + g2.b * S) }, orig := g2.a.toNat }]
+
+/-- `lookupNXDomainCut` + `nxDomainCutEntry.response` for a name below cut `k`. -/
+def cutReply (st : HState) (k : String) (now : Int) : HState × Option (Reply × Int) :=
+  let tok := "d" ++ k
+  match st.cuts.lookup tok, st.cutItems.lookup tok with
+  | some exp, some (gen, s, g, _p, g2) =>
+    match expiryServeTTL exp now with
+    | none => ({ st with cuts := st.cuts.filter (·.1 != tok) }, none)
+    | some t =>
+      let ns : List NsRec := [
+        { rid := (3000000 + gen, 0), owner := tok, ttl := t, kind := .soa s.a.toNat },
+        { rid := (3000000 + gen, 1), owner := tok, ttl := t, kind := .sig g.b },
+        { rid := (3000000 + gen, 2), owner := tok, ttl := t, kind := .plain },
+        { rid := (3000000 + gen, 3), owner := tok, ttl := t, kind := .sig g2.b }]
+      (st, some ({ ns := ns, nx := true, cutProof := some (k, t) }, exp))
+  | _, _ => (st, none)
+
+/-- `ResponseWriter.WriteMsg`: a response that adopted the NXDOMAIN of a cut hit records that cut
+again (`RecordNXDomainCut` with the proof as it was shown) under the request tree's cut. -/
+def rerecordCut (cutMax : Int) (st : HState) (r : Reply) (now : Int) (cut : Option Int) : HState :=
+  match r.cutProof with
+  | some (k, t) =>
+    let tok := "d" ++ k
+    match st.cutItems.lookup tok with
+    | some (_, s, g, p, g2) =>
+      match cutRecordTTL cutMax now t s.a.toNat (cutProofRecs now t t t t s g p g2) cut with
+      | some ttl => { st with cuts := (tok, now + ttl) :: st.cuts.filter (·.1 != tok) }
+      | none => st
+    | none => st
+  | none => st
 
 /-- `ResponseWriter.WriteMsg`: a response that carries the provenance of a
 validated synthesis re-records that proof (with the TTLs it was shown with)
@@ -322,6 +360,13 @@ def serve (cfg : Cfg) (script : List (String × Spec)) (now : Int) :
             if t3 == t || t3 == t2 then (st, r, mcut) else
             let (st, r, mcut, _) := chaseOnce st r t3 mcut
             (st, r, mcut)
+    -- a name below a recorded subtree cut (never admitted itself): handleNXDomainCutHit
+    if name.startsWith "u" then
+      if bypass then (st, none, m0) else
+      match cutReply st (name.drop 1).toString now with
+      | (st, some (r, exp)) => (st, some r, boundCut m0 (some exp))       -- boundRequestTo(ctx, entry.expires)
+      | (st, none) => (st, none, m0)
+    else
     -- a name of the proof zone: never admitted itself; CD / ECS request trees bypass shared denial
     if name.startsWith "p" then
       if bypass then (st, none, m0) else
@@ -373,6 +418,7 @@ def serve (cfg : Cfg) (script : List (String × Spec)) (now : Int) :
         -- ResponseWriter.WriteMsg: chase first, then read the mcut and store
         let (st, r, mcut) := if sp.kind == 'c' then chase st r0 (some sp.tgt) mcut else (st, r0, mcut)
         let st := if bypass then st else rerecord st r now mcut
+        let st := if bypass then st else rerecordCut (if st.bigExpire then cutMaxTTLBig else cutMaxTTL) st r now mcut
         let hasAns := !sp.ans.isEmpty
         let rt : RespType :=
           if r.nx then .nxdomain
@@ -527,14 +573,7 @@ def stepHist (st : State) (w : List String) : State × String :=
       let doBit := doS == "t"
       let h := { h with j := h.j + 1 }
       let now := nowOf h
-      if name.startsWith "u" then
-        let tok := "d" ++ (name.drop 1).toString
-        match h.cuts.lookup tok with
-        | none => ({ st with h := h }, "miss")
-        | some exp =>
-          match expiryServeTTL exp now with
-          | none => ({ st with h := { h with cuts := h.cuts.filter (·.1 != tok) } }, "miss")
-          | some t => ({ st with h := h }, "hit " ++ tok ++ "~" ++ toString t)
+      if false then ({ st with h := h }, "miss")
       else
         let id0 := h.nextId
         let (h', r, root) := serve (genCfg h.ecsCap) script now 14 h name ecs false ecs none
@@ -647,7 +686,10 @@ def stepHist (st : State) (w : List String) : State × String :=
       | none => ({ st with h := h }, "f")
       | some ttl =>
         let tok := "d" ++ k
-        ({ st with h := { h with cuts := (tok, now + ttl) :: h.cuts.filter (·.1 != tok) } }, "t exp=" ++ toString (ceilDiv ttl))
+        let id := h.nextId
+        ({ st with h := { h with nextId := id + 1, cuts := (tok, now + ttl) :: h.cuts.filter (·.1 != tok),
+                                  cutItems := (tok, (id, s, g1, p, g2)) :: h.cutItems.filter (·.1 != tok) } },
+          "t exp=" ++ toString (ceilDiv ttl))
     | _, _ => (st, "bad-op")
   | _ => (st, "bad-op")
 
